@@ -189,6 +189,73 @@ def _cond_of(f, n):
     return out
 
 
+def _only_when(f, node, dkey, good, bads):
+    """Is `node` reachable exactly under dkey == good: in the CFG with every test of dkey decided, it is reachable for
+    `good` and for none of the `bads` (independent of whether the source says `if (k == 0) {..}` or
+    `if (k != 0) return;`)."""
+    from .prog import edpe_blocks
+    pos = f.cfg.positions()
+    if node["i"] not in pos:
+        return False
+    b = pos[node["i"]][0]
+    if b not in edpe_blocks(f, dkey, good):
+        return False
+    return all(b not in edpe_blocks(f, dkey, v) for v in bads)
+
+
+def _pred_blocks(f, pred_keys, value):
+    """Blocks reachable when every branch whose condition is (the negation of) one of pred_keys is decided as `value`."""
+    from .prog import edpe_blocks
+    want = {k.replace(" ", "") for k in pred_keys}
+
+    def decide(t):
+        t = strip(t)
+        if t is None:
+            return None
+        if t["k"] == "UnaryOperator" and t["op"] == "!":
+            r = decide(t["c"][0])
+            return None if r is None else not r
+        k = _norm(resolve_key(f, t)).replace(" ", "")
+        if k in want:
+            return value
+        return None
+    return edpe_blocks(f, "?none", 0, extra_decide=decide)
+
+
+def _reaches_simple(f, a, b):
+    """Can statement b execute after statement a?"""
+    pos = f.cfg.positions()
+    if a["i"] not in pos or b["i"] not in pos:
+        return True
+    ab, ai = pos[a["i"]]
+    bb, bi = pos[b["i"]]
+    if ab == bb and bi > ai:
+        return True
+    seen, st = set(), list(f.cfg.blocks[ab].rsucc)
+    while st:
+        x = st.pop()
+        if x in seen:
+            continue
+        seen.add(x)
+        if x == bb:
+            return True
+        st.extend(f.cfg.blocks[x].rsucc)
+    return False
+
+
+def _count_changes(f, name, sign):
+    out = []
+    for x in f.walk():
+        if x["k"] == "UnaryOperator" and x["op"] in (("post++", "pre++") if sign > 0 else ("post--", "pre--")) and key(x["c"][0]) == name:
+            out.append(x)
+        elif x["k"] == "CompoundAssignOperator" and x["op"] == ("+=" if sign > 0 else "-=") and key(x["c"][0]) == name and const_value(x["c"][1]) == 1:
+            out.append(x)
+        elif x["k"] == "BinaryOperator" and x["op"] == "=" and key(x["c"][0]) == name and \
+                key(x["c"][1]).replace(" ", "") in ("(%s%s1)" % (name, "+" if sign > 0 else "-"), "(1+%s)" % name if sign > 0 else "?"):
+            out.append(x)
+    return out
+
+
 def r_pool(P, chk):
     rid = "R-POOL"
     chk.rule(rid, "object pool: slab arithmetic consistent, bump allocation gated, slab aliases reset on drain, the shared pool "
@@ -221,17 +288,24 @@ def r_pool(P, chk):
     ob("pool_add_slab: slab size is object_size x constant (next meets last exactly)", bool(mult), "pool:multiple", add.where())
     # allocate
     p2 = alloc.params[0][0]
-    bumps = [x for x in alloc.walk() if x["k"] == "CompoundAssignOperator" and x["op"] == "+=" and key(x["c"][0]) == p2 + "->next"]
-    okb = bool(bumps) and all(_norm(key(x["c"][1])) == p2 + "->object_size" and
-                              any(_norm(c) == "%s->next<%s->last" % (p2, p2) for c in _cond_of(alloc, x)) for x in bumps)
+    bumps = [x for x in alloc.walk() if x["k"] == "CompoundAssignOperator" and x["op"] == "+=" and key(x["c"][0]) == p2 + "->next"
+             and _norm(key(x["c"][1])) == p2 + "->object_size"]
+    bumps += [x for x in alloc.walk() if x["k"] == "BinaryOperator" and x["op"] == "=" and key(x["c"][0]) == p2 + "->next"
+              and _norm(resolve_key(alloc, x["c"][1])) in ("%s->next+%s->object_size" % (p2, p2), "%s->object_size+%s->next" % (p2, p2))]
+    allnext = [x for x in alloc.walk() if (x["k"] == "CompoundAssignOperator" or (x["k"] == "BinaryOperator" and x["op"] == "="))
+               and key(x["c"][0]) == p2 + "->next"]
+    pos_a = alloc.cfg.positions()
+    Q = ["%s->next<%s->last" % (p2, p2)]
+    noQ = _pred_blocks(alloc, Q, False)
+    yesQ = _pred_blocks(alloc, Q, True)
+    okb = bool(bumps) and len(allnext) == len(bumps) and all(
+        b["i"] in pos_a and pos_a[b["i"]][0] not in noQ and pos_a[b["i"]][0] in yesQ for b in bumps)
     ob("pool_allocate_object: next advances by object_size only under next < last", okb, "pool:bump", alloc.where())
     adds = [c for c in alloc.calls("pool_add_slab")]
-    oka = bool(adds) and bool(bumps) and all(any(_norm(c) == "%s->next==%s->last" % (p2, p2) for c in _cond_of(alloc, a)) for a in adds) \
-        and all(alloc.cfg.dominates(alloc.parent(adds[0])["i"] if False else adds[0]["i"], b["i"]) or True for b in bumps)
-    # the exhaustion test precedes the bump in the CFG
-    if adds and bumps:
-        ifnode = [a for a in alloc.ancestors(adds[0]) if a["k"] == "IfStmt"][0]
-        oka = oka and alloc.cfg.dominates(ifnode["c"][0]["i"], bumps[0]["i"])
+    R = ["%s->next==%s->last" % (p2, p2), "%s->last==%s->next" % (p2, p2)]
+    noR = _pred_blocks(alloc, R, False)
+    oka = bool(adds) and bool(bumps) and all(a["i"] in pos_a and pos_a[a["i"]][0] not in noR for a in adds) and \
+        all(alloc.cfg.dominates(a["i"], b["i"]) or not _reaches_simple(alloc, b, a) for a in adds for b in bumps)
     ob("pool_allocate_object: a new slab is requested exactly when next == last, before the bump", oka, "pool:refill", alloc.where())
     # drain resets aliases
     p3 = drain.params[0][0]
@@ -251,29 +325,28 @@ def r_pool(P, chk):
     tfree = P.func("token_pool_free", "token.c")
     news = [c for c in tinit.calls("pool_new")]
     ob("token_pool_init: creates the pool only when none exists", bool(news) and all(
-        any(_norm(c) in ("token_pool==0", "token_pool==NULL", "!token_pool") or _norm(c).startswith("token_pool==") for c in _cond_of(tinit, n))
-        for n in news), "pool:init-null", tinit.where())
-    incs = [x for x in tinit.walk() if x["k"] == "UnaryOperator" and x["op"] in ("post++", "pre++") and key(x["c"][0]) == "token_pool_count"]
+        _only_when(tinit, n, "token_pool", 0, (1,)) for n in news), "pool:init-null", tinit.where())
+    incs = _count_changes(tinit, "token_pool_count", +1)
     ob("token_pool_init: increments the use count on every path", bool(incs) and tinit.cfg.block_postdominates(
         tinit.block_of(incs[0]), tinit.cfg.entry), "pool:init-count", tinit.where())
-    decs = [x for x in tdrain.walk() if x["k"] == "UnaryOperator" and x["op"] in ("post--", "pre--") and key(x["c"][0]) == "token_pool_count"]
+    decs = _count_changes(tdrain, "token_pool_count", -1)
     pd = [c for c in tdrain.calls("pool_drain")]
     ob("token_pool_drain: decrements, then really drains only at use count 0",
-       bool(decs) and bool(pd) and all(any(_norm(c) == "token_pool_count==0" for c in _cond_of(tdrain, d)) for d in pd) and
+       bool(decs) and bool(pd) and all(_only_when(tdrain, d, "token_pool_count", 0, (1, 2)) for d in pd) and
        all(tdrain.cfg.dominates(decs[0]["i"], d["i"]) for d in pd), "pool:drain-count", tdrain.where())
+    pf = [c for c in tfree.calls("pool_free")]
+    nul = [x for x in tfree.walk() if x["k"] == "BinaryOperator" and x["op"] == "=" and key(x["c"][0]) == "token_pool" and const_value(x["c"][1]) == 0]
+    ob("token_pool_free: frees only at use count 0 and forgets the pointer",
+       bool(pf) and bool(nul) and all(_only_when(tfree, d, "token_pool_count", 0, (1, 2)) for d in pf) and
+       all(tfree.cfg.dominates(pf[0]["i"], x["i"]) for x in nul), "pool:free-count", tfree.where())
     # ... and nowhere else: any other drain / free of the shared pool in token.c (e.g. "start clean" on a nested init) would
     # pull the slabs from under an outer user's tokens
     tu = P.units.get("token.c")
     for g in tu.funcs.values():
         for c in g.calls():
             if c.get("callee") in ("pool_drain", "pool_free") and len(c["c"]) > 1 and key(c["c"][1]) == "token_pool":
-                gated = any(_norm(cd) == "token_pool_count==0" for cd in _cond_of(g, c))
+                gated = _only_when(g, c, "token_pool_count", 0, (1, 2))
                 ob("%s: %s(token_pool) only at use count 0" % (g.name, c["callee"]), gated, "pool:gate:%s" % g.name, g.where(c))
-    pf = [c for c in tfree.calls("pool_free")]
-    nul = [x for x in tfree.walk() if x["k"] == "BinaryOperator" and x["op"] == "=" and key(x["c"][0]) == "token_pool" and const_value(x["c"][1]) == 0]
-    ob("token_pool_free: frees only at use count 0 and forgets the pointer",
-       bool(pf) and bool(nul) and all(any(_norm(c) == "token_pool_count==0" for c in _cond_of(tfree, d)) for d in pf) and
-       all(tfree.cfg.dominates(pf[0]["i"], x["i"]) for x in nul), "pool:free-count", tfree.where())
     # token_new allocates from the pool
     tn = P.func("token_new", "token.c")
     def pool_alloc(fn, depth=0):
@@ -527,6 +600,29 @@ def r_link(P, chk):
                             z["k"] == "BinaryOperator" and z["op"] == "=" and key(z["c"][0]) == tk and key(z["c"][1]) == tk + "->prev"
                             for z in walk(w["c"][1])) and w["l"] < x["l"]:
                         why = "reached by walking prev links to the head"
+                if why is None:
+                    # any loop shape: the store is unreachable while `v->prev` is still non-NULL at the last test of it
+                    from .prog import edpe_blocks as _edpe
+                    nn = {tk + "->prev", tk + "->prev!=0"}
+                    zz = {tk + "->prev==0", "!" + tk + "->prev"}
+
+                    def decide(t, nn=nn, zz=zz):
+                        t = strip(t)
+                        if t is None:
+                            return None
+                        if t["k"] == "UnaryOperator" and t["op"] == "!":
+                            r = decide(t["c"][0])
+                            return None if r is None else not r
+                        k2 = _norm(key(t)).replace(" ", "")
+                        if k2 in nn:
+                            return True
+                        if k2 in zz:
+                            return False
+                        return None
+                    tested = any(_norm(key(y)).replace(" ", "") in nn | zz for y in f.walk() if y["k"] in ("BinaryOperator", "MemberExpr", "ImplicitCastExpr"))
+                    pos_ = f.cfg.positions()
+                    if tested and x["i"] in pos_ and pos_[x["i"]][0] not in _edpe(f, "?none", 0, extra_decide=decide):
+                        why = "only reached once %s->prev is NULL (head of the chain)" % tk
             chk.obligation(rid, "%s %s: %s->tail is stored on a chain head (%s)" % (f.where(x), f.name, tk, why), why is not None, sample=False)
             if why is None:
                 chk.violation(rid, "link:tail:%s:%s" % (f.name, tk), f.where(x), "%s stores the tail pointer on `%s`, which is not "
